@@ -62,30 +62,7 @@ func c10(c *q.Ctx) {
 	if del != nil {
 		c.ArgIs(del, "XMCache.Put", 3, "\"\\x00\"", 1, "a delete is a write of the delete marker")
 	}
-	it := c.Fn(sb + "(*XMCache).newXModelCacheIterator")
-	if it != nil {
-		out := "sandbox.(*MemXModel).Select(p0.outputsCache,p1,p2,p3)#0"
-		in := "sandbox.newStripNonLiveIterator(sandbox.(*MemXModel).Select(p0.inputsCache,p1,p2,p3)#0)"
-		back := "sandbox.newStripNonLiveIterator(sandbox.newRsetIterator(p1,i:XMReader.Select(p0.model,p1,p2,p3)#0,p0))"
-		want := "sandbox.newContractIterator(sandbox.newStripDelIterator(sandbox.newMultiIterator(" + out + ",sandbox.newMultiIterator(" + in + "," + back + "))))"
-		c.Check(q.Glob("nil", "nil"), "K15", sb+"(*XMCache).newXModelCacheIterator", "composition table present", "-", "")
-		rets := q.Returns(it)
-		found := false
-		for _, r := range rets {
-			if q.CanonD(r.Results[0], 12) == want {
-				found = true
-				c.OK("K15", sb+"(*XMCache).newXModelCacheIterator", "scan iterator = contract(stripDel(multi(outputs, multi(stripNonLive(inputs), stripNonLive(rset(model))))))", c.At(r), "deletes stripped after the merge with the outputs; outputs take priority over inputs over the model")
-			}
-		}
-		if !found {
-			got := ""
-			for _, r := range rets {
-				got += q.CanonD(r.Results[0], 12) + " ; "
-			}
-			c.Fail("K15", sb+"(*XMCache).newXModelCacheIterator", "scan iterator = contract(stripDel(multi(outputs, multi(stripNonLive(inputs), stripNonLive(rset(model))))))", "-", "returned composition is: "+got)
-		}
-		c.Gate(it, "XMReader.Select", q.ToSuccess(), q.Opt{})
-	}
+	scanComposition(c)
 	for _, ctor := range []struct{ fn, field, val string }{
 		{"newStripDelIterator", "stripDelIterator.stripEmpty", ""},
 		{"newStripNonLiveIterator", "stripDelIterator.stripEmpty", "true"},
@@ -143,4 +120,36 @@ func isReturnTrue(i ssa.Instruction) bool {
 	}
 	b, isC := q.ConstBool(r.Results[0])
 	return isC && b
+}
+
+// scanComposition (C10, C09): what a range scan of the sandbox yields is one fixed composition of filters - in
+// particular the backend is filtered for non-live records, not only delete markers: at verification time the backend
+// IS the declared read set, which holds an empty record for every key that was read as missing, and a scan that yields
+// those re-executes to a different write set than pre-execution did.
+func scanComposition(c *q.Ctx) {
+	const sb = "kernel/contract/sandbox::"
+	it := c.Fn(sb + "(*XMCache).newXModelCacheIterator")
+	if it != nil {
+		out := "sandbox.(*MemXModel).Select(p0.outputsCache,p1,p2,p3)#0"
+		in := "sandbox.newStripNonLiveIterator(sandbox.(*MemXModel).Select(p0.inputsCache,p1,p2,p3)#0)"
+		back := "sandbox.newStripNonLiveIterator(sandbox.newRsetIterator(p1,i:XMReader.Select(p0.model,p1,p2,p3)#0,p0))"
+		want := "sandbox.newContractIterator(sandbox.newStripDelIterator(sandbox.newMultiIterator(" + out + ",sandbox.newMultiIterator(" + in + "," + back + "))))"
+		c.Check(q.Glob("nil", "nil"), "K15", sb+"(*XMCache).newXModelCacheIterator", "composition table present", "-", "")
+		rets := q.Returns(it)
+		found := false
+		for _, r := range rets {
+			if q.CanonD(r.Results[0], 12) == want {
+				found = true
+				c.OK("K15", sb+"(*XMCache).newXModelCacheIterator", "scan iterator = contract(stripDel(multi(outputs, multi(stripNonLive(inputs), stripNonLive(rset(model))))))", c.At(r), "deletes stripped after the merge with the outputs; outputs take priority over inputs over the model")
+			}
+		}
+		if !found {
+			got := ""
+			for _, r := range rets {
+				got += q.CanonD(r.Results[0], 12) + " ; "
+			}
+			c.Fail("K15", sb+"(*XMCache).newXModelCacheIterator", "scan iterator = contract(stripDel(multi(outputs, multi(stripNonLive(inputs), stripNonLive(rset(model))))))", "-", "returned composition is: "+got)
+		}
+		c.Gate(it, "XMReader.Select", q.ToSuccess(), q.Opt{})
+	}
 }
